@@ -64,6 +64,7 @@ type StringVal struct {
 type IfaceVal struct {
 	Nil Term
 	T   types.Type
+	Aux *Term // for error values from strconv: errors.Is(err, strconv.ErrRange)
 }
 
 type MapVal struct {
